@@ -1,9 +1,15 @@
 use crate::common::*;
 
+pub mod c03;
+pub mod c17;
+pub mod c18;
 pub mod c19;
 
 pub fn dispatch(ctx: &Ctx, replay: Option<String>) -> ! {
     match ctx.id.as_str() {
+        "C03" => c03::run(ctx, replay),
+        "C17" => c17::run(ctx, replay),
+        "C18" => c18::run(ctx, replay),
         "C19" => c19::run(ctx, replay),
         other => machinery_fail(&format!("unknown property id {}", other)),
     }
